@@ -37,6 +37,8 @@ ID_I = [("cn",)]
 ID_B = [("cb",)]
 # carrier leaves: silent reads of a value that lives in a container - a list element through a variable index, an object field
 # (the operand then reaches the operator as a reference into the container, not as a plain value)
+# optionals produced by a built-in (present ones arrive boxed): `lq.index_of(3)`, `lq.index_of(9)` (nil), a variable holding the former
+CO_LEAVES = [("ob",), ("obn",), ("obv",)]
 CI_LEAVES = [("ei",), ("fi",)]
 CB_LEAVES = [("eb",), ("eb0",), ("fb",)]
 IC_LEAVES = [("k2",), ("k0",)]
@@ -63,7 +65,7 @@ def ty(n):
     k = n[0]
     if k in ("bt", "bf", "vb", "ub", "ct", "cf", "cb", "eb", "eb0", "fb", "&&", "||", "^", "!") or k in CMP:
         return "B"
-    if k in ("o", "on"):
+    if k in ("o", "on", "ob", "obn", "obv"):
         return "O"
     return "I"
 
@@ -236,6 +238,12 @@ class Builder:
             return ("bool", True)
         if k == "cf":
             return ("bool", False)
+        if k == "ob":
+            return ("method", V("lq"), "index_of", [("int", 3)])
+        if k == "obn":
+            return ("method", V("lq"), "index_of", [("int", 9)])
+        if k == "obv":
+            return V("pq")
         if k == "ei":
             return ("index", V("li"), V("ix"))
         if k == "eb":
@@ -367,7 +375,9 @@ def prelude(used=None):
     iy = ("assign", "iy", lit(1), None, ())
     hcls = ("class", "Hk", [("fi", "int"), ("fb", "bool")], ([], [("setfield", V("self"), "fi", lit(2)), ("setfield", V("self"), "fb", ("bool", True))]), [])
     hk = ("assign", "hk", ("new", "Hk", []), None, ())
-    need = {"ei": [li, ix], "eb": [lb, ix], "eb0": [lb, iy], "fi": [hcls, hk], "fb": [hcls, hk], "cn": [cnt, cn], "cb": [cnt, cb], "v": [gx], "u": [gx, u], "vb": [gb], "ub": [gb, ub], "t": [t], "r": [t, r], "bt": [bv], "bf": [bv], "o": [ov], "on": [ov], "f2": [f2], "f3": [f3], "f4": [f4],
+    lq = ("assign", "lq", ("list", [lit(2), lit(3)]), "[int...]", ())
+    pq = ("assign", "pq", ("method", V("lq"), "index_of", [lit(3)]), None, ())
+    need = {"ob": [lq], "obn": [lq], "obv": [lq, pq], "ei": [li, ix], "eb": [lb, ix], "eb0": [lb, iy], "fi": [hcls, hk], "fb": [hcls, hk], "cn": [cnt, cn], "cb": [cnt, cb], "v": [gx], "u": [gx, u], "vb": [gb], "ub": [gb, ub], "t": [t], "r": [t, r], "bt": [bv], "bf": [bv], "o": [ov], "on": [ov], "f2": [f2], "f3": [f3], "f4": [f4],
             "sum3": [sum3], "idx": [pick], "+s": [slen], "msum": [msum], "m": [cls, ko],
             "iife": [], "fldm": [f2, holder, kh], "fldp": [f2, holder, kh], "elem": [f2, fl2], "res": [f2, mk2]}
     out = []
@@ -405,7 +415,7 @@ def body_of(tree, ctx, k=""):
     raise ValueError(ctx)
 
 
-ORDER = ["ei", "eb", "eb0", "fi", "fb", "cn", "cb", "v", "u", "vb", "ub", "t", "r", "bt", "bf", "o", "on", "f2", "f3", "f4", "sum3", "idx", "+s", "msum", "m"] + CALLEE_FORMS
+ORDER = ["ob", "obn", "obv", "ei", "eb", "eb0", "fi", "fb", "cn", "cb", "v", "u", "vb", "ub", "t", "r", "bt", "bf", "o", "on", "f2", "f3", "f4", "sum3", "idx", "+s", "msum", "m"] + CALLEE_FORMS
 
 
 def used_of(tree, ctx):
@@ -503,10 +513,10 @@ class C15(Check):
         ls.append(("Li-identical-leaves-depth<=2-full(+depth-3-rule-1)", [(n, c) for n in i1 for c in ("print", "if", "assign")] +
                    [(n, c) for n in i2 for c in (("print",) if tier == "quick" else ("print", "if", "assign"))] +
                    [(n, "print") for n in (i3 if tier == "thorough" else i3[::17])]))
-        with leafset(I=CI_LEAVES + [("t",)], B=CB_LEAVES + [("bt",)]):
-            c1 = [n for n in depth1() if any(x in ("ei", "eb", "eb0", "fi", "fb") for x in _ops(n))]
+        with leafset(I=CI_LEAVES + [("t",)], B=CB_LEAVES + [("bt",)], O=CO_LEAVES + [("o",)]):
+            c1 = [n for n in depth1() if any(x in ("ei", "eb", "eb0", "fi", "fb", "ob", "obn", "obv") for x in _ops(n))]
             cm = {}
-            c2 = [n for t in ("I", "B") for n in trees_rule1(2, t, cm) if tdepth(n) == 2 and any(x in ("ei", "eb", "eb0", "fi", "fb") for x in _ops(n))]
+            c2 = [n for t in ("I", "B") for n in trees_rule1(2, t, cm) if tdepth(n) == 2 and any(x in ("ei", "eb", "eb0", "fi", "fb", "ob", "obn", "obv") for x in _ops(n))]
         ls.append(("Lc0-depth1-carrier-leaves(list-element,field)-all-contexts", [(n, c) for n in c1 for c in ctxs]))
         ls.append(("Lc1-depth2-rule1-carrier-leaves", [(n, "print") for n in (c2 if tier == "thorough" else c2[::12])]))
         ls.append(("Lk0-depth1-constant-leaves-all-contexts", [(n, c) for n in k1 for c in ctxs]))
@@ -632,7 +642,7 @@ class C15(Check):
 
     def finish(self, stats, tier):
         errs = []
-        for o in ALL_OPS + ["v", "u", "vb", "ub", "k2", "ct", "cf", "cn", "cb", "ei", "eb", "fi", "fb"]:
+        for o in ALL_OPS + ["v", "u", "vb", "ub", "k2", "ct", "cf", "cn", "cb", "ei", "eb", "fi", "fb", "ob", "obn", "obv"]:
             if not stats["tags"].get(f"op{o}"):
                 errs.append(f"vacuity: node kind {o} never executed")
         if not stats["tags"].get("ctx-print~minparen"):
